@@ -11,7 +11,7 @@ mod e_lock;
 
 fn main() {
     // panics of the implementation are caught and reported as outcomes; keep stderr quiet
-    std::panic::set_hook(Box::new(|_| {}));
+    std::panic::set_hook(Box::new(|info| { if std::env::var("EBH_TRACE").is_ok() { eprintln!("panic: {info}"); } }));
     let a = util::parse_args();
     match a.engine.as_str() {
         "asm" => e_asm::run_asm(&a),
